@@ -74,10 +74,10 @@ fn cmp_frag(rep: &Report, acc: &mut Acc, p: usize, pos: usize, b: usize, out: &E
 
 pub fn run(tier: Tier) -> i32 {
     let rep = Report::new("C18", tier);
-    rep.set_rule("differential enumeration: encap_preview vs encap (fresh encapsulator and re-use disabled, so no substitution applies) over the complete (PDU length x buffer length x label incl. zero and explicit re-use x protocol type) lattice; encap_frag_preview vs encap_frag over (PDU length x context position x buffer length); thorough adds all 65536 protocol types and denser PDU/buffer lengths; distinct = (call, outcome pair, regime)");
+    rep.set_rule("differential enumeration: encap_preview vs encap (fresh encapsulator and re-use disabled, so no substitution applies) over the complete (PDU length x buffer length x label incl. zero and explicit re-use x protocol type) lattice; encap_frag_preview vs encap_frag over (PDU length x context position x buffer length); thorough closes the PDU length completely (every length 0..=70000 against the buffer set) and the buffer length completely for the PDU set (every buffer 0..=70000), and adds all 65536 protocol types; distinct = (call, outcome pair, regime)");
     rep.assume("sizes between the enumerated windows are represented by the windows");
     let labels = [L6A, L3A, Lbl::Bcast, Lbl::ReUse, L6Z];
-    let ps: Vec<usize> = if tier.thorough() { let mut v = p_set(); v.extend((0..=70000).step_by(53)); uniq(v) } else { p_set() };
+    let ps: Vec<usize> = if tier.thorough() { (0..=70000).collect() } else { p_set() };
     let bs: Vec<usize> = if tier.thorough() { let mut v = b_set(); v.extend((0..=70000).step_by(499)); uniq(v) } else { b_set() };
     let cells: Vec<(usize, Lbl)> = ps.iter().flat_map(|&p| labels.into_iter().map(move |l| (p, l))).collect();
     cells.par_iter().for_each(|&(p, l)| {
@@ -116,6 +116,34 @@ pub fn run(tier: Tier) -> i32 {
         rep.merge(acc);
     });
     rep.part(json!({"part":"encap vs encap_preview","pdu_lengths":ps.len(),"buffer_lengths_base":bs.len(),"labels":5}));
+    if tier.thorough() {
+        // cross in the buffer length: every buffer 0..=70000 for the PDU set
+        let pcells: Vec<(usize, Lbl)> = p_set().into_iter().flat_map(|p| labels.into_iter().map(move |l| (p, l))).collect();
+        pcells.par_iter().for_each(|&(p, l)| {
+            if rep.over_time() {
+                rep.cap("first(b cross): wall cap");
+                return;
+            }
+            let mut acc = Acc::default();
+            let pd = pdu(p, 0);
+            let mut buf = vec![0xA5u8; 70000];
+            for prior in [Prior::Fresh, Prior::Disabled] {
+                let base = build_prior(FastCrc, prior, l);
+                for b in 0..=70000usize {
+                    let pt = if b % 2 == 0 { 0x0800 } else { 0x0081 };
+                    let pv = do_preview(&pd, pt, l, &buf[..b]);
+                    let mut enc = base.clone();
+                    let out = do_encap(&mut enc, &pd, 7, pt, l, &mut buf[..b]);
+                    acc.states += 1;
+                    acc.transitions += 2;
+                    acc.calls += 2;
+                    cmp_first(&rep, &mut acc, p, b, l, pt, prior, &out, &pv);
+                }
+            }
+            rep.merge(acc);
+        });
+        rep.part(json!({"part":"encap vs encap_preview: buffer cross","pdu_lengths":p_set().len(),"buffers":"0..=70000"}));
+    }
 
     // protocol types
     let pts: Vec<u32> = if tier.thorough() { (0..=0xFFFF).collect() } else { (0..=0x0700).chain(0xFF00..=0xFFFF).collect() };
